@@ -612,6 +612,11 @@ func classesOf(c c11Case, info *runInfo) (bool, []string) {
 		}
 		if info.Conc.Sched.Quiesced > 0 {
 			cls = append(cls, "sched/released-by-quiescence-timer")
+			if !inter {
+				// the schedule asked for an interleaving and a lock of the code under test refused it: a goroutine
+				// was blocked on a lock held by a parked one
+				cls = append(cls, "contended/yes", c.Family+"/"+c.Shape+"/contended")
+			}
 		}
 		if len(info.Conc.Sched.Trace) == 0 {
 			cls = append(cls, "sched/no-yield-point-hit")
@@ -632,7 +637,7 @@ func classesOf(c c11Case, info *runInfo) (bool, []string) {
 	if info.SeqIncons {
 		cls = append(cls, "sequential-run-inconsistent(skipped-consistency-oracle)")
 	}
-	nt := c.Mode == "sched" && inter
+	nt := c.Mode == "sched" && (inter || info.Conc.Sched.Quiesced > 0)
 	return nt, cls
 }
 
